@@ -103,6 +103,10 @@ class Executor(AccessMixin, BuiltinsMixin, StmtMixin, ExecutorBase):
             finally:
                 self.qdepth -= 1
             return SV(mk_bool(z3.ForAll([v], z3.Implies(guard, body))), Ty("bool"))
+        if name == "keys_of":
+            # positional view of a dict's keys (iteration order), nothing allocated: all(... for k in keys_of(d))
+            d = self.ev(node.args[0], fr)
+            return SV(NONE, Ty("list", (d.ty.elt(0),) if d.ty and d.ty.elt(0) else ()), ("lazyiter", self.dict_iter_desc("keys", d)))
         if name == "same_elements":
             a, b = self.ev(node.args[0], fr), self.ev(node.args[1], fr)
             return SV(mk_bool(self.list_eq(a, b)), Ty("bool"))
